@@ -1,40 +1,23 @@
-"""Per-property check configuration used by ./check.
+"""Per-property check configuration used by ./check: loaded from config/C*.py.
 
-Each entry: level (EVIDENCE level), rule (how cases are enumerated / what is non-trivial),
-assumptions, bounds, and parts.  A part = one harness executable run on one library flavour:
-  name, harness (harness/<harness>.cc), flavour (rel|asan|tsan), shards{tier:n},
-  deadline{tier:seconds}, tiers (default both), cflags/ldflags/libs/env/args (optional).
+Each config/Cxx.py defines
+  CHECK = {level, rule, assumptions, bounds, parts:[...]}   (see below)
+  META  = {engine, design_ref, technique, text, note}        (texts for MANIFEST.json)
+A part = one harness executable run on one library flavour:
+  name, harness (harness/<harness>.cc, or sources:[...]), flavour (rel|asan|tsan),
+  shards{tier:n}, deadline{tier:seconds}, tiers (default both),
+  cflags/ldflags/libs/env/args (optional).
 """
+import glob, importlib.util, os
 
-NOACCESS = ["-fno-access-control"]
-
+_here = os.path.dirname(os.path.abspath(__file__))
 CHECKS = {}
-
-CHECKS["C13"] = {
-    "level": "model_checking",
-    "rule": ("F2-linear state space covered by a basis: the one-step map T is read off the real "
-             "engine on the 160 unit states and checked linear on all pairs/triples + dense states; "
-             "every stored jump polynomial (32 step + 32 subsequence, digits 1..3) is applied by the "
-             "real discard/discard_subsequence/Initializer to all unit + dense states and compared "
-             "with T^n computed by independent matrix powering; composite 64-bit counts; Weyl "
-             "arithmetic; discard(n) vs n draws for all n<=N; ord(T)=2^160-1; reseed_rng for all "
-             "(event,slots,slot) in the bound; GenerateCanonical32<float> over all 2^32 words and "
-             "<double> over upper words x extreme lower words. non-trivial = a distinct case group "
-             "(polynomial index x digit, count, reseed configuration, word block) that executed."),
-    "assumptions": [
-        "host build, XORWOW engine (CELERITAS_CORE_RNG=xorwow)",
-        "discard_subsequence is private and called with -fno-access-control; the public "
-        "Initializer path is checked as well",
-        "disjointness of streams follows from distinct subsequence indices < 2^64, segment length "
-        "2^67 and full period 2^160-1 (all three checked) provided one (event,slot) draws < 2^67 "
-        "numbers",
-    ],
-    "bounds": {"quick": {"seq_n": 4096, "reseed_events": 12, "reseed_slots": 6,
-                         "double_upper_stride": 64},
-               "thorough": {"seq_n": 65536, "reseed_events": 64, "reseed_slots": 16,
-                            "double_upper_stride": 1}},
-    "parts": [
-        {"name": "rng", "harness": "c13_rng", "flavour": "rel", "cflags": NOACCESS,
-         "shards": {"quick": 16, "thorough": 16}, "deadline": {"quick": 120, "thorough": 900}},
-    ],
-}
+METAS = {}
+for _f in sorted(glob.glob(os.path.join(_here, "config", "C*.py"))):
+    _id = os.path.basename(_f)[:-3]
+    _spec = importlib.util.spec_from_file_location("verif_config_" + _id, _f)
+    _m = importlib.util.module_from_spec(_spec)
+    _spec.loader.exec_module(_m)
+    if getattr(_m, "ENABLED", True):
+        CHECKS[_id] = _m.CHECK
+        METAS[_id] = _m.META
